@@ -47,7 +47,7 @@ func VerifC16Import() {
 	names0 := verifTxNames(db)
 
 	// the input
-	kind := rt.Choose("input", 5) // 0 valid, 1 truncated body, 2 short header, 3 bad magic, 4 other page size
+	kind := rt.Choose("input", 6) // 0 valid, 1 truncated body, 2 short header, 3 bad magic, 4 other page size, 5 header says zero pages
 	n := 1 + rt.Choose("import.pages", 2)
 	img := verifImage("imp", n, rt.Choose("import.wal", 2) == 1)
 	in := verifJoin(img)
@@ -69,6 +69,13 @@ func VerifC16Import() {
 		big[0][18], big[0][19] = 1, 1
 		binary.BigEndian.PutUint32(big[0][28:], uint32(n))
 		in = verifJoin(big)
+	case 5:
+		// valid magic and page size, but an in-header page count of zero (a header-only or legacy file):
+		// there is no image to install; whole file or just the 100-byte header
+		binary.BigEndian.PutUint32(in[28:], 0)
+		if rt.Choose("header.only", 2) == 1 {
+			in = in[:100]
+		}
 	}
 	err = db.Import(ctx, bytes.NewReader(in))
 	after, apos, eerr := verifExport(db)
